@@ -96,11 +96,13 @@ func NamedSubtype(n string, v interface{}, st string) Arg {
 			return nil
 		}
 
-		n = strings.ToLower(n)
-		if a.namedSub[n] == nil {
-			a.namedSub[n] = map[string]reflect.Value{}
+		// n is shared by every application of this option (the closure may be
+		// applied by concurrent calls): don't write to it.
+		name := strings.ToLower(n)
+		if a.namedSub[name] == nil {
+			a.namedSub[name] = map[string]reflect.Value{}
 		}
-		a.namedSub[n][st] = rv
+		a.namedSub[name][st] = rv
 		return nil
 	}
 }
